@@ -811,6 +811,30 @@ func rulesC02(c *Ctx) {
 		}
 	})
 
+	c.Rule("R-C02-12", "a transport's Write treats the context it is given as ended only through ctx.Err() / ctx.Done(): the response of a cancelled call is written under notDone{req.ctx}, which hides the cancellation from Err and Done but not from context.Cause (it reads a Value) — a Write that asks Cause refuses the response and the connection is declared broken", func() {
+		n := 0
+		for _, f := range c.funcsWithLits(pM) {
+			root := f.Root()
+			if root.Obj == nil || root.Obj.Name() != "Write" || root.Recv() == nil || f.Body == nil {
+				continue
+			}
+			ctxP := root.CtxParam()
+			if ctxP == nil {
+				continue
+			}
+			n++
+			c.touch(f)
+			for _, call := range f.AllCalls(f.Body, false) {
+				fn := f.Callee(call)
+				if fn == nil || fn.Pkg() == nil || fn.Pkg().Path() != "context" || fn.Name() != "Cause" {
+					continue
+				}
+				c.Check(len(call.Args) == 1 && f.ObjOf(call.Args[0]) != types.Object(ctxP), "Write-asks-Cause:"+f.Name(), f, call, "context.Cause is not applied to the context handed to Write")
+			}
+		}
+		c.Pin("transport Write methods with a context", n, 5)
+	})
+
 	c.Rule("R-C02-11", "a peer that has not negotiated a version yet is not cut off for batching: on the newline-delimited transports the version that gates batches starts as 2025-03-26 (an empty version is replaced by that constant before it is normalised), so a pre-initialize batch is read and answered instead of ending the session", func() {
 		su := c.Fn(pM, "ioConn", "sessionUpdated")
 		g := su.Graph()
@@ -851,6 +875,38 @@ func rulesC02(c *Ctx) {
 			}
 		}
 		c.Check(okStore, "ioConn.sessionUpdated:stores-normalised-version", su, nil, "the normalised version is stored in ioConn.protocolVersion under sessionMu (the field ioConn.Read compares with 2025-06-18)")
+		// the gate itself: a batch is refused exactly from 2025-06-18 on (the property's "pre-2025-06-18"), on the
+		// newline-delimited transports and on the streamable server alike
+		gateC := c.Obj(pM, "protocolVersion20250618")
+		rbF := c.FnObj(pM, "", "readBatch")
+		for _, site := range []struct{ recv, fn string }{{"ioConn", "Read"}, {"streamableServerConn", "servePOST"}} {
+			f := c.Fn(pM, site.recv, site.fn)
+			fg := f.Graph()
+			batchV := f.VarFromCall(rbF, 1)
+			if !c.Check(batchV != nil, site.fn+":batch-flag", f, nil, "the is-a-batch flag returned by readBatch is bound") {
+				continue
+			}
+			nGate := 0
+			for _, ev := range fg.condVertices() {
+				cond := fg.node[ev-1].(ast.Expr)
+				var atoms []Atom
+				splitAtoms(cond, true, &atoms)
+				if !hasAtom(atoms, func(a Atom) bool { return a.Val && f.ObjOf(a.E) == batchV }) {
+					continue
+				}
+				for _, a := range atoms {
+					x, y, op, ok := binaryCmp(a.E)
+					if !ok || x == nil {
+						continue
+					}
+					if cst, isC := f.ObjOf(y).(*types.Const); isC && strings.HasPrefix(cst.Name(), "protocolVersion") {
+						nGate++
+						c.Check(types.Object(cst) == gateC && op == token.GEQ && a.Val, site.fn+":batch-refused-from-2025-06-18", f, fg.Node(ev-1), "batches are refused under `version >= protocolVersion20250618` (got %s)", exprStr(a.E))
+					}
+				}
+			}
+			c.Pin(site.fn+" batch version gates", nGate, 1)
+		}
 	})
 
 	c.Import("R-C02-9", "a streamable session is not closed by its idle timer while a POST is being served: the response of a slow call still has a connection to be written to", "C11", "R-C11-4", func(k string) bool {
